@@ -282,6 +282,10 @@ class CompiledRouter:
                         'that includes other characters or variables.'.format(*cpc)
                     )
             nodes.append(new_node)
+            if not created:
+                # NOTE: Remember the root of the new branch so that it can
+                #   be pruned should the template be rejected further down.
+                created.append((nodes, new_node))
             if path_index == len(path) - 1:
                 new_node.method_map = method_map
                 new_node.resource = resource
@@ -297,7 +301,17 @@ class CompiledRouter:
                     )
                 insert(new_node.children, path_index + 1)
 
-        insert(self._roots)
+        created: List[Tuple[List[CompiledRouterNode], CompiledRouterNode]] = []
+        try:
+            insert(self._roots)
+        except UnacceptableRouteError:
+            # NOTE: Do not leave a half-inserted branch behind; a rejected
+            #   template must not affect the routing tree.
+            for siblings, new_branch in created:
+                if new_branch in siblings:
+                    siblings.remove(new_branch)
+            raise
+
         # NOTE(caselit): when compile is True run the actual compile step, otherwise
         # reset the _find, so that _compile will be called on the next find use
         if kwargs.get('compile', False):
